@@ -154,7 +154,7 @@ class MpDm(Mps, Mpo):
             new_mpdm[i] = mt
         qn = mp.dummy_qn
         new_mpdm.qn = [
-            add_outer(np.array(qn_o), np.array(qn_m)).reshape(-1, qn_o.shape[1])
+            add_outer(np.array(qn_o), np.array(qn_m)).reshape(-1, np.array(qn_o).shape[1])
             for qn_o, qn_m in zip(self.qn, qn)
         ]
         if canonicalise:
